@@ -125,13 +125,27 @@ class Ctx:
 
     def guard(self, rule, key, f, targets, matcher, what, success_only=True, min_targets=1, start=None, assume=()):
         """every block in `targets` (effect sites in f) must be reachable from entry only through the pass arm of a
-        condition accepted by `matcher` (which returns the arm label that must be taken, or None)."""
+        condition accepted by `matcher` (which returns the arm label that must be taken, or None).
+        The condition may sit (a) in f itself, (b) in a helper that f calls with its error propagated (`check_x(..)?`) or whose
+        boolean result f branches on - the helper's parameters are substituted by the call's arguments -, or (c) when f is a
+        closure, in the enclosing function before the call that runs the closure. (b) and (c) keep the verdict stable under
+        extract-function / hoisting refactors."""
         blocked = f.errblocks if success_only else ()
         base = f.reach([0], blocked=blocked)
         live = [t for t in targets if t in base]
         if len(live) < min_targets:
             self.rep.ob(rule, key, False, 'effect site(s) for "%s" not found / not reachable in %s (fail closed)' % (what, f.id), self.loc(f))
             return False
+        ok, used, ncands, how = self._guard_search(f, live, matcher, success_only, assume, depth=0)
+        detail = ('guard "%s" must dominate %d effect site(s) in %s; %d candidate condition(s) matched, %s' % (
+            what, len(live), f.id, ncands, ('holds (%s)' % how) if ok else 'none cuts every path to the effect'))
+        self.rep.need(rule, key, ok, detail, self.loc(f, live[0]),
+                      {'rule': rule, 'guard': what, 'fn': f.id, 'effect_blocks': live[:6], 'candidates': ncands,
+                       'guard_block': used.bb if used is not None and hasattr(used, 'bb') else None, 'found': how if ok else None})
+        return ok
+
+    def _guard_search(self, f, live, matcher, success_only, assume, depth):
+        blocked = f.errblocks if success_only else ()
         cands = self.find_conds(f, matcher)
         # assumptions: arms excluded by hypothesis (e.g. "the flag is false"); matcher returns the arm that is deleted
         assumed = []
@@ -139,8 +153,6 @@ class Ctx:
             for (c, arm) in self.find_conds(f, am):
                 if arm in c.arms:
                     assumed.append(self.edge(c, arm))
-        ok = False
-        used = None
         for (c, arm) in cands:
             if arm not in c.arms:
                 continue
@@ -150,15 +162,92 @@ class Ctx:
                 continue
             r = f.reach([0], removed=[self.edge(c, arm)] + assumed, blocked=blocked)
             if not (set(live) & r):
-                ok = True
-                used = c
-                break
-        detail = ('guard "%s" must dominate %d effect site(s) in %s; %d candidate condition(s) matched, %s' % (
-            what, len(live), f.id, len(cands), 'one guards all sites' if ok else 'none cuts every path to the effect'))
-        self.rep.need(rule, key, ok, detail, self.loc(f, live[0]),
-                      {'rule': rule, 'guard': what, 'fn': f.id, 'effect_blocks': live[:6], 'candidates': len(cands),
-                       'guard_block': used.bb if used else None})
-        return ok
+                return True, c, len(cands), 'condition in %s' % f.id.split('::')[-1]
+        n = len(cands)
+        if depth >= 2:
+            return False, None, n, ''
+        # (b) a helper called by f establishes the guard
+        for call in f.calls:
+            h = self.prog.fns.get(call.callee or '')
+            if h is None or h.kind not in ('fn', 'assocfn') or h.id == f.id or h.crate != f.crate and not h.crate.startswith('fil_actor'):
+                continue
+            if not h.returns_result() and h.locals[0][0] != 'bool':
+                continue
+            if len(h.blocks) > 400:
+                continue
+            lifted = self._lift_matcher(matcher, f, call, h)
+            hc = self.find_conds(h, lifted)
+            if not hc:
+                continue
+            n += len(hc)
+            if h.returns_result():
+                if result_fate(f, call) not in ('try', 'returned'):
+                    continue
+                # in h: every Ok return lies behind the pass arm
+                hrets = h.ret_blocks()
+                good = False
+                for (c, arm) in hc:
+                    if arm in c.arms and not (set(hrets) & h.reach([0], removed=[self.edge(c, arm)], blocked=h.errblocks)):
+                        good = True
+                if not good:
+                    continue
+                # in f: the call dominates the effect
+                r = f.reach([0], blocked=set(blocked) | {call.bb}, removed=assumed)
+                if not (set(live) & r):
+                    return True, call, n, 'helper %s(..)? called at %s' % (h.id.split('::')[-1], call.where)
+            else:
+                # bool helper: f must branch on its result, and inside h `true` must lie behind the pass arm
+                from props.c20 import true_blocks
+                tb_ = true_blocks(h)
+                good = False
+                for (c, arm) in hc:
+                    if arm in c.arms and not (set(tb_) & h.reach([0], removed=[self.edge(c, arm)])):
+                        good = True
+                if not good:
+                    continue
+                for cc in conds(f, self.S):
+                    if cc.kind == 'pred' and cc.pred == h.id and True in cc.arms:
+                        r = f.reach([0], removed=[self.edge(cc, True)] + assumed, blocked=blocked)
+                        if not (set(live) & r):
+                            return True, call, n, 'boolean helper %s tested at %s' % (h.id.split('::')[-1], call.where)
+        # (c) f is a closure: the guard may sit in the enclosing function before the call that runs it
+        if f.kind == 'closure' and f.parent in self.prog.fns:
+            par = self.prog.fns[f.parent]
+            sites = [c.bb for c in par.calls if f.id in c.cl]
+            if sites:
+                okp, used, n2, how = self._guard_search(par, [b for b in sites if b in par.reach([0], blocked=par.errblocks if success_only else ())], matcher, success_only, assume, depth + 1)
+                n += n2
+                if okp:
+                    return True, used, n, how + ' (enclosing function)'
+        return False, None, n, ''
+
+    def _lift_matcher(self, matcher, f, call, h):
+        """matcher for conditions inside helper h as seen from call site `call` in f: parameter atoms P:k of h are replaced
+        by the atoms of the k-th argument at the call"""
+        S = self.S
+        argatoms = {}
+
+        def subst(atoms):
+            out = set()
+            for a in atoms:
+                if a[0] == 'P' and isinstance(a[1], int) and 1 <= a[1] <= len(call.args):
+                    if a[1] not in argatoms:
+                        argatoms[a[1]] = S.operand(f, call.args[a[1] - 1])
+                    out |= argatoms[a[1]]
+                else:
+                    out.add(a)
+            return out
+
+        class _L(object):
+            pass
+
+        def m(c):
+            lc = _L()
+            lc.__dict__.update(c.__dict__)
+            lc.A = subst(c.A)
+            lc.B = subst(c.B)
+            return matcher(lc)
+        return m
 
     def guard_any(self, rule, key, f, targets, matchers, what, success_only=True, assume=()):
         """disjunctive guard: the effect is reachable only if at least one of the conditions takes its pass arm
@@ -441,9 +530,13 @@ class Ctx:
         return bool(t) and t[-1][1] == field and (t[-1][0] == adt or t[-1][0].endswith('::' + adt))
 
     # ------------------------------------------------------------------ K10 argument atoms
-    def arg_has(self, rule, key, call, idx, pats, what, narrow=True, forbid=()):
+    def arg_has(self, rule, key, call, idx, pats, what, narrow=True, forbid=(), copy=False):
+        """copy=True: the argument is passed as is (its expression tree contains no arithmetic)"""
         sl = self.N if narrow else self.S
         atoms = sl.operand(call.fn, call.args[idx])
+        if copy:
+            atoms = atoms | {('XOP', o[1]) for o in expr_ops(self.prog, call.fn, call.args[idx]) if o[0] == 'OP'}
+            forbid = tuple(forbid) + ('XOP:',)
         ok = has_all(atoms, pats) and not any(has_atom(atoms, p) for p in forbid)
         self.rep.need(rule, key, ok, '%s: argument %d of %s must derive from %s%s; derives from %s' % (
             what, idx, (call.callee or '?').split('::')[-1], pats, (' and not from %s' % list(forbid)) if forbid else '', sendsmod.pretty(atoms)),
@@ -504,7 +597,8 @@ def m_rel(rel, a_pats, b_pats, holds, a_forbid=(), b_forbid=(), pure=False):
     return m
 
 
-def m_pred(callee_suffix, arg_pats, holds):
+def m_pred(callee_suffix, arg_pats, holds, direct=None):
+    """boolean predicate call `callee(args)`; direct='Adt.field': the predicate's receiver must be exactly that field"""
     def m(c):
         if c.kind != 'pred' or not isinstance(c.pred, str):
             return None
@@ -512,6 +606,11 @@ def m_pred(callee_suffix, arg_pats, holds):
             return None
         if not has_all(c.A, arg_pats):
             return None
+        if direct is not None:
+            adt, _, fld = direct.rpartition('.')
+            df = getattr(c, 'direct', [])
+            if not df or df[-1][1] != fld or not (df[-1][0] == adt or df[-1][0].endswith('::' + adt)):
+                return None
         return True if holds else False
     return m
 
